@@ -132,16 +132,22 @@ pub fn run(run: &Run) {
         }
     }
     let max_keys = tier.pick(64, 160);
-    let sets: Mutex<HashMap<R, HashMap<R, std::collections::BTreeSet<String>>>> = Mutex::new(HashMap::new());
+    // per canonical class, per recipe: iteration order actually realised (the built term read back in its
+    // stored order) -> rendering. A rendering is a function of the value and the order its unordered
+    // components are iterated in, so two recipes of one value must render alike under every order both realise.
+    // (Which orders a recipe can realise within the key budget depends on the hash function and on hashbrown's
+    // probing, i.e. on insertion order - demanding equal rendering SETS would demand more than the property does.)
+    let sets: Mutex<HashMap<R, HashMap<R, std::collections::BTreeMap<String, String>>>> = Mutex::new(HashMap::new());
     fam.par_iter().for_each(|r| {
         let v = V::term(r.clone());
-        let mut mine = std::collections::BTreeSet::new();
+        let mut mine = std::collections::BTreeMap::new();
         let make = || r.build();
         env::explore(&make, &|t| R::of_term(t), max_keys, &mut |_script, t| {
             run.eval(1);
+            let order = R::of_term(&t).show();
             match render(&Narsese::Term(t)) {
                 Ok(s) => {
-                    mine.insert(s.clone());
+                    mine.insert(order, s.clone());
                     record(s, &v);
                 }
                 Err(e) => run.violation(&format!("{} : {e}", v.show()), json!({"op": "typst_render", "value": v.to_json()}), &[]),
@@ -150,20 +156,33 @@ pub fn run(run: &Run) {
         sets.lock().unwrap().entry(r.canon()).or_default().insert(r.clone(), mine);
     });
     let g = sets.lock().unwrap();
+    let (mut common_orders, mut recipe_pairs_without_common_order) = (0u64, 0u64);
     for (class, per_recipe) in g.iter() {
         let mut it = per_recipe.iter();
         let (r0, s0) = it.next().unwrap();
         for (r1, s1) in it {
-            run.eval(1);
-            if s0 != s1 {
-                run.violation(
-                    &format!("{} and {} are the same value ({}) but their rendering sets over all iteration orders differ: {:?} vs {:?}", r0.show(), r1.show(), class.show(), s0, s1),
-                    json!({"op": "typst_render", "value": V::term(r1.clone()).to_json()}),
-                    &[],
-                );
+            let mut common = 0;
+            for (order, text0) in s0 {
+                if let Some(text1) = s1.get(order) {
+                    common += 1;
+                    run.eval(1);
+                    if text0 != text1 {
+                        run.violation(
+                            &format!("{} and {} are the same value ({}) and are stored in the same order {order}, but render differently: {text0:?} vs {text1:?}", r0.show(), r1.show(), class.show()),
+                            json!({"op": "typst_render", "value": V::term(r1.clone()).to_json()}),
+                            &[],
+                        );
+                    }
+                }
+            }
+            common_orders += common;
+            if common == 0 {
+                recipe_pairs_without_common_order += 1;
             }
         }
     }
+    run.count("renderings_compared_under_a_common_iteration_order", common_orders);
+    run.count("recipe_pairs_without_common_order", recipe_pairs_without_common_order);
     run.count("unordered_recipes_under_all_orders", fam.len() as u64);
     // stand-alone items
     let mut items: Vec<(String, String)> = vec![];
